@@ -221,7 +221,8 @@ def jacobi_der_seq(ns, alpha, beta, x):
     # and we modify the arguments to
     ns = list(ns)
     min_i = 0
-    out = np.empty((len(ns), *x.shape), dtype=x.dtype)
+    # rows hold what the recurrence produces: floats, also for integer coordinates
+    out = np.empty((len(ns), *x.shape), dtype=np.result_type(x, 1.0))
     if ns[min_i] == 0:
         # n=0 is piston, der==0
         out[min_i] = 0
@@ -291,7 +292,8 @@ def _initialize_alphas(s, x, alphas, j=0):
     # j = derivative order
     if alphas is None:
         if hasattr(x, 'dtype'):
-            dtype = x.dtype
+            # the alpha sums are floating point, also for integer coordinates
+            dtype = np.result_type(x, 1.0)
         else:
             dtype = config.precision
         if hasattr(x, 'shape'):
